@@ -53,4 +53,40 @@ StatusTextOk(n, has, ttext, text) ==
     /\ Len(text) > 0
     /\ IF has THEN text = ttext ELSE ContainsSeq(Lower(text), Hex2(n))
 ExtTextOk(ttext, text) == ContainsSeq(text, ttext)
+\* Reference meaning of the CIP general status codes (CIP Vol 1, appendix B), as one lower-case key word per code that any
+\* wording of that meaning contains ("attribute not supported" -> attribute, "too much data" -> much, ...).  Independent of
+\* the library's own table: a text filed under the wrong code does not carry the key word of the code it is filed under.
+StatusKeyword(n) ==
+    CASE n = 1 -> <<99, 111, 110, 110, 101, 99, 116, 105, 111, 110>>
+      [] n = 2 -> <<114, 101, 115, 111, 117, 114, 99, 101>>
+      [] n = 3 -> <<118, 97, 108, 117, 101>>
+      [] n = 4 -> <<112, 97, 116, 104>>
+      [] n = 5 -> <<100, 101, 115, 116, 105, 110, 97, 116, 105, 111, 110>>
+      [] n = 7 -> <<108, 111, 115, 116>>
+      [] n = 8 -> <<115, 101, 114, 118, 105, 99, 101>>
+      [] n = 9 -> <<97, 116, 116, 114, 105, 98, 117, 116, 101>>
+      [] n = 10 -> <<97, 116, 116, 114, 105, 98, 117, 116, 101>>
+      [] n = 11 -> <<97, 108, 114, 101, 97, 100, 121>>
+      [] n = 12 -> <<99, 111, 110, 102, 108, 105, 99, 116>>
+      [] n = 13 -> <<101, 120, 105, 115, 116>>
+      [] n = 14 -> <<115, 101, 116, 116, 97, 98, 108, 101>>
+      [] n = 16 -> <<99, 111, 110, 102, 108, 105, 99, 116>>
+      [] n = 17 -> <<108, 97, 114, 103, 101>>
+      [] n = 18 -> <<102, 114, 97, 103, 109, 101, 110, 116, 97, 116, 105, 111, 110>>
+      [] n = 19 -> <<100, 97, 116, 97>>
+      [] n = 20 -> <<97, 116, 116, 114, 105, 98, 117, 116, 101>>
+      [] n = 21 -> <<109, 117, 99, 104>>
+      [] n = 22 -> <<101, 120, 105, 115, 116>>
+      [] n = 26 -> <<108, 97, 114, 103, 101>>
+      [] n = 27 -> <<108, 97, 114, 103, 101>>
+      [] n = 28 -> <<97, 116, 116, 114, 105, 98, 117, 116, 101>>
+      [] n = 29 -> <<97, 116, 116, 114, 105, 98, 117, 116, 101>>
+      [] n = 30 -> <<115, 101, 114, 118, 105, 99, 101>>
+      [] n = 34 -> <<114, 101, 112, 108, 121>>
+      [] n = 37 -> <<107, 101, 121>>
+      [] n = 39 -> <<97, 116, 116, 114, 105, 98, 117, 116, 101>>
+      [] n = 40 -> <<109, 101, 109, 98, 101, 114>>
+      [] n = 41 -> <<109, 101, 109, 98, 101, 114>>
+      [] OTHER -> <<>>
+StatusMeaningOk(n, text) == StatusKeyword(n) = <<>> \/ ContainsSeq(Lower(text), StatusKeyword(n)) \/ ContainsSeq(Lower(text), Hex2(n))
 ==============================================================================
